@@ -70,6 +70,8 @@ def run(ctx):
     from . import c01, c02, c03
     c01.check_filter_dicts(ctx)
     # 'ranks m first with chi^2 ~ 0, reports A_V ~ A_V0 and scale ~ log10 d0': the kernels, both fitting modes and chi_squared itself (C01, C02, C03)
+    c02.check_readers_distance_independent(ctx)
+    c02.check_readers_two_filters(ctx)
     c01.check_kernels(ctx)
     c01.check_fit_2d(ctx)
     c02.check_fit_3d(ctx)
